@@ -21,6 +21,7 @@ connection), which is itself the specification `authorization_is_pure` states.
 | "writes to or aborts of an in-progress upload require that upload's secret" | `upload_secret_required` (any state change by PATCH / PUT …/abort on an upload in progress ⇒ gate passed and presented secret = that upload's, whichever other uploads exist) |
 | … and nothing else removes or replaces an upload in progress (an allocation in particular) | `upload_untouched_without_its_secret` (one request), `uploads_change_only_by_their_own_secret` (histories), `allocate_leaves_uploads_alone`.  Timeouts and disconnects (`BucketWriter._abort_due_to_timeout`, `disconnected`) are outside the request model: not covered |
 | "mutable writes require the write enabler" | `enabler_required` (any state change by read-test-write on a slot holding a share — existing, new or mixed share numbers — ⇒ presented enabler = every existing share's) |
+| … whichever node recorded the share (shares copied to / served by a node with another nodeid) | `enabler_decision_ignores_nodeid`, `rtw_refused_iff_enabler_differs`, `rtw_refused_changes_nothing`, `migration_keeps_enablers` |
 | quantifier "histories … interleaved with legitimate uploads by other clients" | `unauthorized_requests_are_noops` (final state and the answers to the authorized requests are those of the history without the unauthorized ones) |
 | TLS, certificate pin | not covered (out of scope, DESIGN) |
 -/
@@ -336,5 +337,59 @@ example :
                              ⟨"PUT", ["storage", "v1", "immutable", si, "0", "abort"], [authHeader [1]], x, .none⟩]
     lookupK (si, 0) (run [1] st h).1.up = some ⟨[9], [some 7, none], ([1], [2])⟩ ∧
     (run [1] st h).2.map (·.status) = [401, 401] := by decide
+
+/-! ### the write-enabler decision and the recorded nodeid -/
+
+/-- a read-test-write is refused (401) exactly when some share of the slot carries a write enabler other than the
+presented one: accept ⇔ the presented enabler equals the stored one of every existing share -/
+theorem rtw_refused_iff_enabler_differs (st : State) (si : String) (enabler : Bytes) (lease : Lease) (a : RtwArgs) :
+    ssRtw st si enabler lease a = none ↔ ∃ sh ∈ st.muts, sh.1.1 = si ∧ sh.2.enabler ≠ enabler := by
+  unfold ssRtw
+  by_cases h : enablerMismatch st si enabler = true
+  · simp only [h, if_true, true_iff]
+    unfold enablerMismatch at h
+    rw [List.any_eq_true] at h
+    obtain ⟨sh, hsh, hx⟩ := h
+    exact ⟨sh, hsh, by simpa using hx⟩
+  · simp only [h]
+    constructor
+    · intro hc; cases hc
+    · rintro ⟨sh, hsh, hx⟩
+      exfalso; apply h
+      unfold enablerMismatch
+      rw [List.any_eq_true]
+      exact ⟨sh, hsh, by simpa using hx⟩
+
+/-- **The decision does not look at nodeids**: neither at the nodeid recorded in the shares' headers nor at the
+serving node's.  Two states whose mutable shares differ only in their recorded nodeid, served by nodes with any
+nodeids, refuse exactly the same (slot, enabler) pairs. -/
+theorem enabler_decision_ignores_nodeid (st : State) (f : Key × MutShare → Bytes) (nid : Bytes) (si : String)
+    (enabler : Bytes) :
+    enablerMismatch { st with muts := st.muts.map (fun e => (e.1, { e.2 with nodeid := f e })), myNodeid := nid } si enabler
+      = enablerMismatch st si enabler := by
+  simp only [enablerMismatch, List.any_map]
+  rfl
+
+/-- a refused read-test-write changes nothing: no data, no lease, no enabler, no recorded nodeid -/
+theorem rtw_refused_changes_nothing (st : State) (sec : SecretsDict) (si : String) (a : RtwArgs)
+    (h : ∃ sh ∈ st.muts, sh.1.1 = si ∧ sh.2.enabler ≠ getS sec .writeEnabler) :
+    hRtw st sec si a = (st, ⟨401, .empty⟩) := by
+  have := (rtw_refused_iff_enabler_differs st si (getS sec .writeEnabler) (getS sec .leaseRenew, getS sec .leaseCancel) a).mpr h
+  simp [hRtw, this]
+
+/-- serving the share directory from another node (another nodeid, another swissnum) leaves every share with its
+write enabler and its recorded nodeid, and the enabler decision for every slot is what it was -/
+theorem migration_keeps_enablers (st : State) (nid : Bytes) (si : String) (enabler : Bytes) :
+    (migrate st nid).muts = st.muts ∧ (migrate st nid).imm = st.imm ∧
+    enablerMismatch (migrate st nid) si enabler = enablerMismatch st si enabler := ⟨rfl, rfl, rfl⟩
+
+-- a share recorded by node [1] and served by node [2]: a wrong enabler is refused and nothing (in particular not the
+-- header) changes; the recorded enabler is accepted and the recorded nodeid stays
+example :
+    let si := "aaaaaaaaaaaaaaaaaaaaaaaaaa"
+    let st : State := migrate { muts := [((si, 0), ⟨[9], [1, 2, 3], [], [1]⟩)], myNodeid := [1] } [2]
+    ssRtw st si [8] ([], []) ⟨[(0, ⟨[], [(0, [7])], none⟩)], []⟩ = none ∧
+    (ssRtw st si [9] ([5], [6]) ⟨[(0, ⟨[], [(0, [7])], none⟩), (1, ⟨[], [(0, [4])], none⟩)], []⟩).map (·.1.muts)
+      = some [((si, 0), ⟨[9], [7, 2, 3], [([5], [6])], [1]⟩), ((si, 1), ⟨pad32 [9], [4], [([5], [6])], [2]⟩)] := by decide
 
 end Tahoe.C30
